@@ -107,7 +107,7 @@ def ref (T : Tab) : Pat → Val → Log → R Env
      | some kvs =>
        if kvs.length < ks.length then .fail lg
        else
-         match refKeys (logsGet v) kvs (ks.map (Key.val T)) [] lg with
+         match refKeys (logsGet v) (mapView v) (ks.map (Key.val T)) [] lg with
          | .ok vals l1 =>
            (match refList T ps vals l1 with
             | .ok e l2 => .ok (e ++ restBind rest kvs (ks.map (Key.val T))) l2
